@@ -80,6 +80,10 @@ class Contract:
         """{ExcName: condition}: ExcName may be raised only when condition holds (one direction)."""
         return {}
 
+    def result_term(self, c0, a):
+        """Optional: the result as an explicit term of the pre-state (functional contracts)."""
+        return None
+
     def axioms(self, eng):
         """Definitions of spec functions this contract uses (added as facts)."""
         return []
@@ -163,9 +167,11 @@ class Contract:
         if m is not None:
             res = SV("gen", x=[Bag([v], m, eng.schema.refine(self.yield_sv(v)), tag="contract:" + self.short())])
         else:
-            res = make_symbolic(eng, st, "res_" + self.short().replace(".", "_"), self.result)
+            rt = self.result_term(c0, a)
+            res = rt if rt is not None else make_symbolic(eng, st, "res_" + self.short().replace(".", "_"),
+                                                          self.result)
         for name, f in self.post(c0, c1, a, res).items():
-            st.assume(f)
+            st.define(f)
         return res
 
     yield_cls = None
@@ -185,7 +191,7 @@ class Contract:
                 new = fresh("H_" + sub.replace("#", "_").replace("$", "S").replace(".", "_"), old.sort())
                 if may is not None:
                     r = fresh("r", Int)
-                    st.assume(z3.ForAll([r], z3.Implies(z3.Not(may(c0, a, r)), z3.Select(new, r) == z3.Select(old, r))))
+                    st.define(z3.ForAll([r], z3.Implies(z3.Not(may(c0, a, r)), z3.Select(new, r) == z3.Select(old, r))))
                 st.heap[sub] = new
 
     def short(self):
@@ -223,6 +229,8 @@ class Contract:
         st.heap = c0.heap   # share arrays created lazily by pre
         c0 = Ctx(eng, dict(st.heap))
         st.entry_mark = len(st.pc)
+        from .core import serial_mark
+        st.entry_serial = serial_mark()
         pre_assumptions = st.assumptions()
         # execute
         eng.cur_fn = fi
@@ -554,7 +562,7 @@ class LoopSpec:
 
     def _assume_inv(self, eng, st, L):
         for name, f in self.inv(L).items():
-            st.assume(f)
+            st.define(f)
 
     def run(self, eng, node, it, st, ordinal):
         import z3 as _z3
@@ -572,11 +580,12 @@ class LoopSpec:
             self._assume_inv(eng, s, LoopCtx(eng, s, cL, k=k, seq=es))
             # sequence lemma (theory of sequences; proved as an obligation, then used as a fact)
             lem = _z3.Extract(es, 0, k + 1) == _z3.Concat(_z3.Extract(es, 0, k), _z3.Unit(es[k]))
-            s.oblige("loop%d.lemma.prefix_step" % ordinal, lem)
-            s.assume(lem)
+            # proved standalone (a fact of the theory of sequences, independent of the program state)
+            s.obls.append(Obligation("loop%d.lemma.prefix_step" % ordinal, [0 <= k, k < n], lem, info={"prefer": "cvc5"}))
+            s.define(lem)
             if self.lemmas:
                 for f in self.lemmas(LoopCtx(eng, s, cL, k=k, seq=es)):
-                    s.assume(f)
+                    s.define(f)
             eng.assign(node.target, eng.schema.refine(SV("val", es[k])), s)
             for (s2, ctrl) in eng.exec_stmts(node.body, s):
                 if ctrl is not None and ctrl[0] == "raise":
@@ -589,10 +598,10 @@ class LoopSpec:
                 self._assert_inv(eng, s2, LoopCtx(eng, s2, cL, k=k + 1, seq=es), "%d.step" % ordinal)
             # exit
             self._assume_inv(eng, st, LoopCtx(eng, st, cL, k=n, seq=es))
-            st.assume(_z3.Extract(es, 0, n) == es)
+            st.define(_z3.Extract(es, 0, n) == es)
             if self.lemmas:
                 for f in self.lemmas(LoopCtx(eng, st, cL, k=n, seq=es)):
-                    st.assume(f)
+                    st.define(f)
             for name in _target_names(node.target):
                 st.env[name] = SV("poison", x="loop variable %s" % name)
             return [(st, None)] + outs
@@ -613,11 +622,11 @@ class LoopSpec:
         y = fresh("y", x0.sort())
         if x0.sort() != Val:
             raise Unsupported("invariant loop binder sort")
-        st.assume(_z3.ForAll([y], _z3.Select(elems, y) == member(y)))
+        st.define(_z3.ForAll([y], _z3.Select(elems, y) == member(y)))
         self._assert_inv(eng, st, LoopCtx(eng, st, cL, seen=EmptySet, elems=elems), "%d.init" % ordinal)
         self._havoc(eng, st)
         seen = fresh("seen", SetSort)
-        st.assume(_z3.ForAll([y], _z3.Implies(_z3.Select(seen, y), _z3.Select(elems, y))))
+        st.define(_z3.ForAll([y], _z3.Implies(_z3.Select(seen, y), _z3.Select(elems, y))))
         s = st.fork()
         x = fresh("x", Val)
         s.assume(_z3.And(_z3.Select(elems, x), _z3.Not(_z3.Select(seen, x))))
@@ -637,7 +646,7 @@ class LoopSpec:
             self._assert_inv(eng, s2, LoopCtx(eng, s2, cL, seen=_z3.Store(seen, x, True), elems=elems),
                              "%d.step" % ordinal)
         self._assume_inv(eng, st, LoopCtx(eng, st, cL, seen=seen, elems=elems))
-        st.assume(seen == elems)
+        st.define(seen == elems)
         for name in _target_names(node.target):
             st.env[name] = SV("poison", x="loop variable %s" % name)
         return [(st, None)] + outs
